@@ -27,6 +27,9 @@ EXTRA_TOKENS = ["$", "^", "\\$", "|", ",", ")", "}", "{", "]", "[", "[a-c]", "[!
 # inside {..}, `{ , }` are ordinary inside @() ?() +() *() (p_any_char's none_of set depends on the enclosing scope)
 XTOKENS = ["{a(,b}", "{a|b,c}", "{x(1),y}", "{a),b}", "@(a,b|c)", "?(a{)", "+(a}|b)", "*(a,|b)", "{a,@(b|c)}", "@(a|{b,c})"]
 XCONTEXT = ["a", "/", "*", ".", "B", "**"]
+# backslash-escaped NON-metacharacters: `\\c` matches exactly c (it must not become the regex escape \\d, \\w, \\b ...)
+ETOKENS = ["\\a", "\\d", "\\w", "\\s", "\\b", "\\B", "\\A", "\\z", "\\1", "\\7", "\\<", "\\>", "\\ż", "\\Ż", "\\n", "\\/", "\\ "]
+ECONTEXT = ["a", "1", "/", "*", "?", ".", "[ab]"]
 NAMES = ["a", "B", "b", "a.1", "a-1", "ż", "(", "ab"]
 EXTRA_NAMES = ["a\nb", "\n", "*", "Ż", "a+", "1", ".", "-", "+", "c", "A", "$", "a$"]
 BASE = "/d-1/x.y/ż"
@@ -68,7 +71,8 @@ def guided_path(rng, toks):
         if t in EXPAND:
             out.append(rng.choice(EXPAND[t]) if rng.chance(5, 6) else rng.choice(NAMES))
         elif t.startswith("\\") and len(t) == 2:
-            out.append(t[1])
+            r = rng.below(8)
+            out.append(t[1] if r < 5 else (rng.choice("7 d<a_") if r < 7 else t[1].swapcase()))
         elif len(t) == 1:
             r = rng.below(12)
             out.append(t if r < 9 else (t.swapcase() if r < 11 else rng.choice(NAMES)))
@@ -100,7 +104,9 @@ TOKEN_AST = {"?": ("one",), "*": ("star",), "**": ("dstar",), "/": ("sep",), "[a
              "*(a,|b)": ("alt", "many", [[("lit", "a"), ("lit", ",")], [("lit", "b")]]),
              "{a,@(b|c)}": ("alt", "once", [[("lit", "a")], [("alt", "once", [[("lit", "b")], [("lit", "c")]])]]),
              "@(a|{b,c})": ("alt", "once", [[("lit", "a")], [("alt", "once", [[("lit", "b")], [("lit", "c")]])]])}
-REF_TOKENS = set(TOKENS) | set(XTOKENS)
+for _t in ETOKENS:
+    TOKEN_AST[_t] = ("sep",) if _t[1] == "/" else ("lit", _t[1])
+REF_TOKENS = set(TOKENS) | set(XTOKENS) | set(ETOKENS)
 
 
 def ref_ast(toks):
@@ -201,6 +207,11 @@ def _sel_subject(glob_abs, path):
     return False
 
 
+def glob_is_abs(toks):
+    g = "".join(toks)
+    return g.startswith("/") or g.startswith("\\/") or g.startswith("**")
+
+
 def _ref_job(job):
     mode, toks, ci, paths = job
     ast = ref_ast(toks)
@@ -211,7 +222,7 @@ def _ref_job(job):
     glob = "".join(toks)
     out = []
     for p in paths:
-        subj = _sel_subject(glob.startswith("/") or glob.startswith("**"), p)
+        subj = _sel_subject(glob_is_abs(toks), p)
         out.append("-" if subj is None else ("0" if subj is False else ("1" if ref_match(ast, subj, ci) else "0")))
     return "".join(out)
 
@@ -264,6 +275,127 @@ def sel_paths(rng, paths):
     return out
 
 
+class MCase:
+    """PathSelector(BASE) with several include paths / exclude paths / names (each a token list)"""
+    __slots__ = ("ci", "incs", "excs", "names", "paths", "line")
+    mode = "M"
+
+    def __init__(self, ci, incs, excs, names, paths):
+        self.ci, self.incs, self.excs, self.names, self.paths = ci, incs, excs, names, paths
+        fl = lambda l: ",".join(enc("".join(t)) for t in l) or "_"
+        self.line = "M %d %s %s %s %s %s" % (ci, enc(BASE), fl(incs), fl(excs), fl(names), " ".join(enc(p) for p in paths))
+
+    def describe(self):
+        j = lambda l: [("".join(t)) for t in l]
+        return "PathSelector(%s)%s include_paths=%r exclude_paths=%r include_names=%r" % (
+            BASE, " -i" if self.ci else "", j(self.incs), j(self.excs), j(self.names))
+
+
+# include-path globs (token lists) with diverging and shared literal prefixes, relative and absolute
+M_INCS = [["a", "/", "*"], ["B", "/", "**"], ["a", "/", "B", "/", "*"], ["a", "-", "1", "/", "ż", "/", "*"], ["a", "b", "/", "*", ".", "1"],
+          ["**", "/", "B"], ["/", "a", "/", "*"], ["{a,b/c}", "/", "*"], ["B", "/", "a"], ["a", "/", "a"], ["a", "/", "B", "/", "B"],
+          ["ż", "/", "**"], ["(", "/", "?"], ["a", ".", "1", "/", "*"], ["*", "/", "a"], ["a", "/", "a", "/", "a"], ["B"], ["[ab]", "/", "**"]]
+M_INCS_ABS = [list(BASE) + ["/"] + g for g in (["a", "/", "*"], ["B", "/", "**"], ["ż", "/", "a"])]
+M_NAMES = [["*"], ["a", "*"], ["*", ".", "1"], ["[ab]"], ["B"], ["?"], ["a", "b"], ["ż"]]
+M_EXCS = [["a", "/", "B", "/", "**"], ["**", "/", "a", "b"], ["B"], ["a", "/", "a"], ["*", "/", "(", "/", "**"], ["ż", "/", "*"]]
+
+
+def gen_multi(ctx, paths_all):
+    rng = ctx.rng
+    out = []
+    n = ctx.pick(1500, 30000)
+    for i in range(n):
+        k = 2 + rng.below(2) if i % 8 else rng.below(2)          # mostly 2-3 include paths, sometimes 0-1
+        pool = M_INCS + M_INCS_ABS
+        incs = [rng.choice(pool) if rng.chance(5, 6) else [rng.choice(TOKENS) for _ in range(1 + rng.below(3))] for _ in range(k)]
+        names = [rng.choice(M_NAMES) for _ in range(rng.choice([0, 0, 1, 2, 3]))]
+        excs = [rng.choice(M_EXCS) for _ in range(rng.choice([0, 0, 1, 2]))]
+        ps = [rng.choice(paths_all) for _ in range(5)]
+        for g in incs:
+            rel = g[len(BASE) + 1:] if "".join(g).startswith(BASE + "/") else g
+            ps += [guided_path(rng, rel).lstrip("/") or "a" for _ in range(3)]
+        out.append(MCase(rng.below(2), incs, excs, names, sel_paths(rng, ps)))
+        ctx.bump("selector_include_paths", len(incs))
+        ctx.bump("selector_exclude_paths", len(excs))
+        ctx.bump("selector_include_names", len(names))
+    return out
+
+
+def _mref_job(job):
+    """union semantics of a selector WITHOUT excludes: (no names or some name matches the file name) and
+    (no include paths or some include path matches the path); '-' where not predicted"""
+    ci, incs, names, paths = job
+    ia = [(glob_is_abs(g), ref_ast(g)) for g in incs]
+    na = [ref_ast(g) for g in names]
+    if any(a is None for _, a in ia) or any(a is None for a in na):
+        return None
+    out = []
+    for p in paths:
+        subj_abs, subj_rel = _sel_subject(True, p), _sel_subject(False, p)
+        if subj_abs is None:
+            out.append("-")
+            continue
+        fname = subj_abs.rsplit("/", 1)[-1]
+        ok_n = (not na) or any(ref_match(a, fname, ci) for a in na)
+        ok_p = (not ia) or any(ref_match(a, subj_abs, ci) if ab else (subj_rel is not False and ref_match(a, subj_rel, ci)) for ab, a in ia)
+        out.append("1" if ok_n and ok_p else "0")
+    return "".join(out)
+
+
+def check_multi(ctx, model, paths_all):
+    from multiprocessing import Pool
+    mcases = gen_multi(ctx, paths_all)
+    impl, mod = run_both([c.line for c in mcases], model)
+    prune, mism, sem = [], [], []
+    with Pool(core.NCPU) as pool:
+        refs = pool.map(_mref_job, [(bool(c.ci), c.incs, c.names, c.paths) for c in mcases], chunksize=32)
+    nref = 0
+    for c, il, ml, ref in zip(mcases, impl, mod, refs):
+        ctx.count(len(c.paths))
+        ctx.bump("mode", "M_ci" if c.ci else "M", len(c.paths))
+        if il == "panic":
+            ctx.violation({"kind": "glob_panics"}, "%s panics" % c.describe(), {"case_line": c.line, "selector": c.describe()}, True)
+            continue
+        if il != ml:
+            mism.append((len(c.line), c, il, ml))
+        if not il.startswith("ok "):
+            continue
+        for i, (path, res) in enumerate(zip(c.paths, il.split(" ")[2:])):
+            a, b, b0, d = res.split(":")
+            ctx.distinct(("M", c.line[:200], path), a[1] == "1" or "0" in b0)
+            ctx.bump("selector_full_match", a)
+            if a[1] == "1" and ("0" in b0 or d[1] == "0"):
+                anc = ancestors_of(path)
+                dd = anc[b0.index("0")] if "0" in b0 else path
+                prune.append((len(c.line), len(path), c, path, dd, il, ml))
+            if ref is not None and ref[i] != "-":
+                nref += 1
+                if ref[i] != a[1]:
+                    sem.append((len(c.line), len(path), c, path, a[1], il, ml))
+    ctx.extra["selector_pairs_checked_against_python_union_reference"] = nref
+    if prune:
+        _, _, c, path, dd, il, ml = min(prune, key=lambda t: t[:2])
+        ctx.violation_counts["ancestor_pruned_selector"] = len(prune)
+        ctx.violation({"kind": "ancestor_pruned"},
+                      "%s (no excludes applied): matches_full_path(%r) is true but matches_dir(%r) is false — a directory that is an ancestor of "
+                      "(or is) a path matching one of the include paths is pruned (%d failing pairs)" % (c.describe(), path, dd, len(prune)),
+                      {"case_line": MCase(c.ci, c.incs, [], c.names, [path]).line, "selector": c.describe(), "path": path, "dir": dd,
+                       "full_case_line": c.line, "impl": il, "model": ml}, found_input=True)
+    if sem:
+        _, _, c, path, g, il, ml = min(sem, key=lambda t: t[:2])
+        ctx.violation_counts["selector_semantics"] = len(sem)
+        ctx.violation({"kind": "selector_semantics"},
+                      "%s (no excludes applied) %s %r, contrary to the union semantics of names/include paths (%d such pairs)"
+                      % (c.describe(), "selects" if g == "1" else "does not select", path, len(sem)),
+                      {"case_line": MCase(c.ci, c.incs, [], c.names, [path]).line, "selector": c.describe(), "path": path,
+                       "full_case_line": c.line, "impl": il, "model": ml}, found_input=True)
+    if mism and not any(v[3] for v in ctx.violations):
+        _, c, il, ml = min(mism, key=lambda t: t[0])
+        ctx.violation({"kind": "model_mismatch"}, "model and implementation disagree on %s: impl=%s model=%s (%d cases)"
+                      % (c.describe(), il[:120], ml[:120], len(mism)), {"case_line": c.line, "selector": c.describe(), "impl": il, "model": ml},
+                      found_input=False)
+
+
 def gen_cases(ctx):
     rng = ctx.rng
     cases = []
@@ -306,7 +438,7 @@ def gen_cases(ctx):
         ctx.bump("glob_tokens", 3, 400 * 4)
     # 4 tokens: quick = a sample that still contains every token at every position next to every token; thorough = all
     if ctx.quick:
-        n4 = 9000
+        n4 = 6000
         for i in range(n4):
             if i < 1600:       # complete (position, pair) coverage: pair (a,b) at positions 0..3
                 a, b = TOKENS[(i // 4) % 20], TOKENS[(i // 80) % 20]
@@ -343,11 +475,19 @@ def gen_cases(ctx):
         ps += ["".join(toks), rng.choice(paths_all)]
         add(toks, ps)
         ctx.bump("glob_tokens", "cross_delimiter_%d" % len(toks), 4)
+    # escaped non-metacharacters: every sequence of <= 2 tokens over ETOKENS + a small context that contains one
+    ea = ETOKENS + ECONTEXT
+    eseqs = [[a] for a in ETOKENS] + [[a, b] for a in ea for b in ea if a in ETOKENS or b in ETOKENS]
+    eseqs += [[rng.choice(ea), rng.choice(ETOKENS), rng.choice(ea)] for _ in range(ctx.pick(300, 6000))]
+    for toks in eseqs:
+        ps = [guided_path(rng, toks) for _ in range(6)] + ["".join(t[1] if t in ETOKENS else t for t in toks), "".join(toks)]
+        add(toks, ps)
+        ctx.bump("glob_tokens", "escaped_plain_%d" % len(toks), 4)
     # random globs over the wider alphabet (incl. syntax outside the theorem fragment), 1-7 tokens
-    nr = ctx.pick(6000, 80000)
+    nr = ctx.pick(4000, 80000)
     for _ in range(nr):
         n = 1 + rng.below(7)
-        toks = [rng.choice(EXTRA_TOKENS + XTOKENS) if rng.chance(2, 5) else rng.choice(TOKENS) for _ in range(n)]
+        toks = [rng.choice(EXTRA_TOKENS + XTOKENS + ETOKENS) if rng.chance(2, 5) else rng.choice(TOKENS) for _ in range(n)]
         ps = sample_paths(toks, 3, 6) + ["/".join(rng.choice(NAMES + EXTRA_NAMES) for _ in range(1 + rng.below(3))) for _ in range(3)]
         add(toks, ps)
         ctx.bump("glob_tokens", "random_%d" % min(n, 7), 4)
@@ -436,13 +576,15 @@ def replay_payload(case, il, ml, extra=None):
 def run(ctx):
     ctx.rule = ("bounded-exhaustive globs over 20 tokens {a B . - + ( ż 1 ? * ** / [ab] [!a] {a,b/c} @(a|b) ?(a) +(a) *(a|b) \\*}: "
                 "all globs of <= 2 tokens x all paths of <= 3 (quick) / <= 4 (thorough) components over names {a B b a.1 a-1 ż ( ab} "
-                "(relative and absolute) + names with newlines; all 3-token globs and (quick: a 9000 sample containing every adjacent "
+                "(relative and absolute) + names with newlines; all 3-token globs and (quick: a 6000 sample containing every adjacent "
                 "token pair at every position; thorough: all) 4-token globs (+100k 5-token globs thorough) x sampled fixed paths and "
                 "paths derived from the glob so that many match; random globs of 1-7 tokens over a wider alphabet incl. $ ^ | , } ] "
                 "class syntax outside the fragment; a dedicated family of groups whose alternatives contain the other group kind's delimiters "
                 "as literals ({a(,b} {a|b,c} {x(1),y} @(a,b|c) ?(a{) +(a}|b) ...) in sequences of <= 3 tokens with subjects incl. the "
                 "glob text itself; every glob with and without --ignore-case, directly (Pattern) and through "
-                "PathSelector include/exclude/name with base dir /d-1/x.y/ż and relative + absolute paths. One evaluation = one "
+                "PathSelector include/exclude/name with base dir /d-1/x.y/ż and relative + absolute paths; escaped non-metacharacters "
+                "(\\a \\d \\w \\s \\b \\1 \\< \\ż ...) in sequences of <= 2 tokens (+ sampled 3); PathSelectors with 0-3 include paths (diverging and "
+                "shared literal prefixes, relative and absolute), 0-3 names and 0-2 excludes. One evaluation = one "
                 "(glob, ci, mode, path); non-trivial = full match true, or some ancestor rejected by the partial match, or an "
                 "err/panic outcome; distinct = distinct (mode, ci, glob, path)")
     ctx.assumptions = ["the regex crate implements standard matching (GlobProofs.rmatch) on the emitted fragment: compared on every case "
@@ -471,6 +613,8 @@ def run(ctx):
                 case = Case(f[0], int(f[1]), toks, [dec(x) for x in f[k:]], glob=dec(f[k - 1]))
                 if il == "panic":
                     ctx.violation({"kind": "glob_panics"}, "building a pattern from glob %r panics" % case.glob, replay_payload(case, il, ml), True)
+                if il == "err" and toks and "".join(toks) == case.glob and all(t in REF_TOKENS for t in toks) and ref_ast(toks) is not None:
+                    ctx.violation({"kind": "glob_rejected"}, "glob %r is rejected with an error" % case.glob, replay_payload(case, il, ml), True)
                 for path, d in oracle(case, il):
                     ctx.violation({"kind": "ancestor_pruned"}, "glob %r fully matches %r but directory %r is rejected by the partial match"
                                   % (case.glob, path, d), replay_payload(case, il, ml, {"path": path, "dir": d}), True)
@@ -482,6 +626,12 @@ def run(ctx):
                             ctx.violation({"kind": "glob_semantics"}, "glob %r %s %r, contrary to the documented semantics"
                                           % (case.glob, "matches" if g == "1" else "does not match", path),
                                           replay_payload(case, il, ml, {"path": path}), True)
+            if f[0] == "M" and il.startswith("ok "):
+                for path, res in zip([dec(x) for x in f[6:]], il.split(" ")[2:]):
+                    a, b, b0, d = res.split(":")
+                    if a[1] == "1" and ("0" in b0 or d[1] == "0"):
+                        ctx.violation({"kind": "ancestor_pruned"}, "%s: matches_full_path(%r) but a directory on the way (or the path itself) is "
+                                      "rejected by matches_dir" % (rp.get("selector", l[:80]), path), {"case_line": l, "impl": il, "model": ml}, True)
             if il != ml and not ml.startswith("unsup"):
                 ctx.violation({"kind": "model_mismatch"}, "model and implementation disagree on %s: impl=%s model=%s" % (l[:80], il[:80], ml[:80]),
                               {"case_line": l, "impl": il, "model": ml}, found_input=False)
@@ -495,6 +645,7 @@ def run(ctx):
     mismatches = []
     oracle_fails = []
     panics = []
+    rejected = []
     unsup = 0
     for case, il, ml in zip(cases, impl, mod):
         fi = il.split(" ")
@@ -505,6 +656,8 @@ def run(ctx):
             ctx.distinct((case.mode, case.ci, case.glob), True)
             if fi[0] == "panic":
                 panics.append((len(case.glob), case.mode, case.ci, case, il, ml))
+            elif fi[0] == "err" and case.toks and all(t in REF_TOKENS for t in case.toks) and ref_ast(case.toks) is not None:
+                rejected.append((len(case.glob), case.mode, case.ci, case, il, ml))
         else:
             nmatch = 0
             for path, res in zip(case.paths, fi[2:]):
@@ -565,6 +718,12 @@ def run(ctx):
         ctx.violation({"kind": "glob_panics"}, "building a pattern from glob %r%s panics instead of matching or returning an error (%d such cases)"
                       % (case.glob, " through PathSelector" if case.mode == "S" else "", len(panics)),
                       replay_payload(Case(case.mode, case.ci, case.toks, case.paths[:1], case.glob), il, ml), found_input=True)
+    if rejected:
+        _, _, _, case, il, ml = min(rejected, key=lambda t: t[:3])
+        ctx.violation_counts["glob_rejected"] = len(rejected)
+        ctx.violation({"kind": "glob_rejected"}, "glob %r, made only of documented constructs and (escaped) literal characters, is rejected "
+                      "with an error instead of matching (%d such cases)" % (case.glob, len(rejected)),
+                      replay_payload(Case(case.mode, case.ci, case.toks, case.paths[:1], case.glob), il, ml), found_input=True)
     if oracle_fails:
         # report the smallest failing (glob, path): shortest glob, then shortest path, Pattern level before selector level
         _, _, _, _, case, il, ml, path, d = min(oracle_fails, key=lambda t: t[:4])
@@ -576,6 +735,9 @@ def run(ctx):
                          path, "the path itself" if d == path else "its ancestor directory", d,
                          "matches_dir" if case.mode == "S" else "matches_partially", len(oracle_fails)),
                       replay_payload(minimal, il, ml, {"path": path, "dir": d, "full_case_line": case.line}), found_input=True)
+
+    # --- 1c. selectors with several include paths / names / excludes ---------------------------------
+    check_multi(ctx, model, all_paths(3))
 
     # --- 2. get_fixed_prefix on arbitrary strings -------------------------------------------------
     fl = fixed_prefix_cases(ctx)
